@@ -11,10 +11,17 @@ for f in sorted(glob.glob("/verif/seeded/*/meta.json")):
     site = re.sub(r"^C\d+-", "", site)[:70]
     conf = m.get("confirmed_in_scratch_worktree", {})
     ok = "yes" if conf.get("pinned_suite_with_change") == "PASS" and conf.get("demo_with_change") == "FAIL" else conf.get("note", "n/a")[:40]
-    rows.append((m["name"], m["property"], title[:150], ok, det.get("result", "?"), site))
+    per = det.get("per_check") or {m["property"]: det.get("result", "?")}
+    hist = det.get("trial_history", [])
+    first = {}
+    for h in hist:
+        c, r = h.split(":")
+        first.setdefault(c, r)
+    res = "; ".join(f"{c}: {r}" + (" (first trial: " + first[c] + ")" if first.get(c, r) != r else "") for c, r in sorted(per.items()))
+    rows.append((m["name"], m["property"], title[:150], ok, det.get("result", "?"), site, res))
 print("| seed | changed behaviour | suite passes / demo fails | check result | first reporting site |")
 print("|---|---|---|---|---|")
 for r in rows:
-    print(f"| {r[0]} | {r[2]} | {r[3]} | ./check {r[1]}: {r[4]} | `{r[5]}` |")
+    print(f"| {r[0]} | {r[2]} | {r[3]} | {r[6]} | `{r[5]}` |")
 print()
 print(f"{len(rows)} seeded changes; detected: {sum(1 for r in rows if r[4]=='DETECTED')}")
